@@ -34,7 +34,7 @@ type c29Case struct {
 	Msgs   []msgSpec `json:"msgs"`
 }
 
-const c29FlitBudget = 2500
+const c29FlitBudget = 1500
 
 // expFlits: the documented flit count (endpoint README / outgoingmw.go); used
 // only to bound the size of a case and to label it, never as the C29 oracle.
@@ -222,7 +222,7 @@ func TestC29Delivery(t *testing.T) {
 			"pcie: root complex + <=6 switches, depth <=3, switch latency {0..140}; nvlink: root + <=3 PCIe switches + devices with 0..n+1 NVLinks; "+
 			"mesh: 1-4 x 1-4 x 1-2 (5%: 9-wide / 3-deep grids that outgrow the 8x8x2 default), holes (tiles never added), bandwidth 0.5-3 transfers/cycle, switch latency 0-5; "+
 			"devices: 1-3 ports (buffers 1-4), 1-3 sends/tick, in 1/3 of the cases drain only every 2nd/3rd/7th tick and/or not at all for the first 5/40/150 ticks, 10% run on another clock; "+
-			"traffic: 1-300 messages (case capped at 2500 flits), src!=dst port (also on the same device), 0-4096 bytes, 5 traffic classes, 1/3 with RspTo (earlier message's ID or arbitrary), optional hotspot destination, message IDs from the library generator started at {0,1000,2^32,2^53+7,2^63+11}. "+
+			"traffic: 1-300 messages (case capped at 1500 flits), src!=dst port (also on the same device), 0-4096 bytes, 5 traffic classes, 1/3 with RspTo (earlier message's ID or arbitrary), optional hotspot destination, message IDs from the library generator started at {0,1000,2^32,2^53+7,2^63+11}. "+
 			"Oracle: every object delivered at a device port is a packetization.AssembledMsg whose MsgMeta equals a sent message's (all six fields) and whose Dst is that port, at most once per ID; "+
 			"liveness (mesh, and every topology whose switch multigraph is a tree): when the engine is idle every message was delivered and every script fully sent. "+
 			"Non-trivial: a delivered message crossed >=2 switch-to-switch links, a multi-flit message was sent, and flits of two messages interleaved at one endpoint's network port or a sender was back-pressured")
@@ -392,7 +392,7 @@ func TestC29Delivery(t *testing.T) {
 		t.Skip()
 	}
 
-	kit.SetChecks(3000, 20000)
+	kit.SetChecks(2000, 12000)
 	rapid.Check(t, func(rt *rapid.T) { c := genC29(rt); run(rt, c) })
 }
 
